@@ -49,6 +49,7 @@ def run(ctx):
     cfg = fw.write_cfg(ctx.path("Gen_C01.cfg"), invariants=["Emit"],
                        constants={"Classes": fw.tla_set(classes), "K": k, "Seed": ctx.seed % 1000})
     cases, ncases = ctx.gen("gen", "C01", "Gen_C01.tla", cfg)
+    ctx.append_witnesses(cases)
     tr1 = ctx.drive(drive, ["--cases", cases, "--n", "0"], "trace-gen.ndjson")
     ctx.monitor("mon-gen", "C01", "Trace_C01.tla", "Trace_C01.cfg", tr1, nontrivial=nontrivial, cover=cover)
     # impl -> spec: seeded random operands, unbalanced sizes
